@@ -45,15 +45,16 @@ def records_check(run, binary, driver, module, env=None, tier=None, sub=None, ar
     return meta
 
 
-def traces_check(run, binary, driver, module, env=None, tier=None, sub=None, args=(), cfg=None, fileskey="traces"):
+def traces_check(run, binary, driver, module, env=None, tier=None, sub=None, args=(), cfg=None, fileskey="traces", nd=False, timeout=1800):
     """Drive, validate traces with TLC against a trace spec, confirm each rejected trace alone."""
     e = dict(env or {})
     if getattr(run, "only", None):
         e["VERIF_ONLY"] = run.only
-    d, meta = run.drive(binary, driver, env=e, tier=tier, sub=sub, args=args)
+    d, meta = run.drive(binary, driver, env=e, tier=tier, sub=sub, args=args, timeout=timeout)
     run.absorb(meta)
     files = meta["files"][fileskey]
-    nt, ne, rej = vlib.tlc_traces(run, module, files, cfg=cfg)
+    validate = vlib.tlc_traces_nd if nd else vlib.tlc_traces
+    nt, ne, rej = validate(run, module, files, cfg=cfg)
     run.cov["traces_validated_against_impl"] += nt
     run.extra["trace_events_validated"] = run.extra.get("trace_events_validated", 0) + ne
     seen = set()
@@ -65,7 +66,7 @@ def traces_check(run, binary, driver, module, env=None, tier=None, sub=None, arg
         def recheck(key=key):
             e2 = dict(e, VERIF_ONLY=key)
             d2, m2 = run.drive(binary, driver, sub="recheck-%s-%d" % (driver, len(seen)), env=e2, tier=tier, args=args)
-            n2, ne2, rej2 = vlib.tlc_traces(run, module, m2["files"][fileskey], cfg=cfg)
+            n2, ne2, rej2 = validate(run, module, m2["files"][fileskey], cfg=cfg)
             tr = []
             for p in m2["files"][fileskey]:
                 tr += [json.loads(l) for l in open(p)][:80]
@@ -198,4 +199,22 @@ def c13(run):
     run.assumptions += [READER_NOTE, READER_MODEL_NOTE]
     vlib.tlc_model(run, "WsReaderImpl", cfg="WsReaderImpl_bad", workers=12, xmx="12g")
     traces_check(run, b, "c13r", "TraceWsReader")
+    vlib.tlc_model(run, "WsWriterImpl", workers=12, xmx="12g")
+    traces_check(run, b, "c13w", "TraceWsWriter")
+    return run.finish("model_checking")
+
+
+@prop("C20")
+def c20(run):
+    b = run.build()
+    vlib.tlc_model(run, "MCDial", workers=8)
+    r = vlib.tlc_model(run, "MCDial", cfg="MCDial_prerepair", workers=8, expect_ok=False)
+    if r["ok"] or "Temporal property Live was violated" not in r["out"]:
+        raise Infra("anti-vacuity: the pre-repair Dial model (watcher observes ctx) should violate Live")
+    run.extra["prerepair_model_violates_Live"] = True
+    run.assumptions += ["the net.Conn honours deadlines; NetDial honours its context (harness stubs)",
+                        "schedules are forced through a gated net.Conn (every Read/Write/SetDeadline/Close/NetDial/cancel is a logged, sequenced event); the watcher's select, the channels and the timers are silent actions of TraceDial",
+                        "liveness on the real code = Dial returns within 3 s for 30 ms timers (the only wall-clock verdict)",
+                        "which error is returned when the context ended and the handshake failed for an unrelated reason is left open"]
+    traces_check(run, b, "c20", "TraceDial", nd=True)
     return run.finish("model_checking")
